@@ -780,7 +780,7 @@ class Exec:
                 stop_cond = Not(c) if is_and else c
                 if _maybe_true(stop_cond):
                     # the deciding operand is returned; for a boolean its value is known on this branch
-                    sv = vbool(not is_and) if v.k == "bool" else v
+                    sv = vbool(not is_and) if v.k == "bool" else (self.narrow(v, not is_and) if hasattr(self, "narrow") else v)
                     yield q.fork(stop_cond, "bo%d.%d:stop" % (self.ordinal(e, "boolop"), k)), sv
                 if _maybe_true(Not(stop_cond)):
                     yield from go(k + 1, q.fork(Not(stop_cond), "bo%d.%d:go" % (self.ordinal(e, "boolop"), k)))
